@@ -1,1 +1,126 @@
-// harness bodies compiled inside quinn-proto/src/connection/ack_frequency.rs (feature __verif-hooks)
+// Harness bodies for quinn-proto/src/connection/ack_frequency.rs.
+
+use crate::TransportErrorCode;
+
+const V62: u64 = 1 << 62;
+
+fn mk_state(peer_max_ack_delay_us: u64, in_flight: Option<(u64, u64)>, next_seq: u64, last: Option<u64>, max_ack_delay_us: u64) -> AckFrequencyState {
+    AckFrequencyState {
+        in_flight_ack_frequency_frame: in_flight.map(|(pn, d)| (pn, Duration::from_micros(d))),
+        next_outgoing_sequence_number: VarInt(next_seq),
+        peer_max_ack_delay: Duration::from_micros(peer_max_ack_delay_us),
+        last_ack_frequency_frame: last,
+        max_ack_delay: Duration::from_micros(max_ack_delay_us),
+    }
+}
+
+fn dur(secs: u32, nanos: u32) -> Duration {
+    // nanos < 1e9 is checked by the callers: no carry, no division on 64-bit symbols
+    Duration::new(secs as u64, nanos)
+}
+
+/// C03.f: `candidate_max_ack_delay` for EVERY rtt, every peer (min_ack_delay, max_ack_delay)
+/// accepted by `TransportParameters::read` (max_ack_delay < 2^14 ms, min_ack_delay <=
+/// max_ack_delay * 1000 us), every current peer_max_ack_delay and both config modes: no panic,
+/// the requested delay is never below the peer's min_ack_delay, never above
+/// max(rtt, 25 ms, min_ack_delay), and equals the base value whenever that lies in the range.
+pub fn candidate_max_ack_delay(rtt_s: u32, rtt_ns: u32, peer_s: u32, peer_ns: u32, peer_tp_max_ack_delay_ms: u16, has_min: bool, min_ack_delay_us: u32, has_cfg: bool, cfg_s: u32, cfg_ns: u32) -> u32 {
+    if rtt_ns >= 1_000_000_000 || peer_ns >= 1_000_000_000 || cfg_ns >= 1_000_000_000 {
+        return 0;
+    }
+    // what transport parameter validation lets through
+    if peer_tp_max_ack_delay_ms >= 1 << 14 || min_ack_delay_us as u64 > peer_tp_max_ack_delay_ms as u64 * 1000 {
+        return 0;
+    }
+    let mut st = mk_state(0, None, 1, None, 25_000);
+    st.peer_max_ack_delay = dur(peer_s, peer_ns);
+    let mut params = TransportParameters::default();
+    params.max_ack_delay = VarInt(peer_tp_max_ack_delay_ms as u64);
+    params.min_ack_delay = if has_min { Some(VarInt(min_ack_delay_us as u64)) } else { None };
+    let mut config = AckFrequencyConfig::default();
+    config.max_ack_delay = if has_cfg { Some(dur(cfg_s, cfg_ns)) } else { None };
+    let rtt = dur(rtt_s, rtt_ns);
+    let got = st.candidate_max_ack_delay(rtt, &config, &params);
+    let min_d = Duration::from_micros(if has_min { min_ack_delay_us as u64 } else { 0 });
+    let base = if has_cfg { dur(cfg_s, cfg_ns) } else { dur(peer_s, peer_ns) };
+    let hi = rtt.max(Duration::from_millis(25)).max(min_d);
+    assert!(got >= min_d);
+    assert!(got <= hi);
+    if base >= min_d && base <= hi {
+        assert!(got == base);
+    }
+    let mut f = 1;
+    if has_min && min_d > rtt.max(Duration::from_millis(25)) {
+        f |= 2; // peer's minimum exceeds the automatic upper bound
+    }
+    if got == base { f |= 4 }
+    f
+}
+
+/// C03.f: `ack_frequency_received` with arbitrary peer-chosen fields: stale frames are ignored,
+/// a requested delay below the timer granularity is a PROTOCOL_VIOLATION, otherwise all three
+/// parameters are adopted verbatim; no arithmetic on them can overflow.
+pub fn ack_frequency_received(seq: u64, delay_us: u32, threshold: u64, reordering: u64, has_last: bool, last: u64, old_delay_us: u16) -> u32 {
+    if seq >= V62 || threshold >= V62 || reordering >= V62 {
+        return 0;
+    }
+    let (delay_us, old_delay_us) = (delay_us as u64, old_delay_us as u64);
+    let Some(t0) = crate::verif::mk_instant(1, 0) else { return 0 };
+    let mut st = mk_state(25_000, None, 0, if has_last { Some(last) } else { None }, old_delay_us);
+    let mut pa = crate::connection::spaces::verif::mk_pending_acks(false, 0, 0, 1, 1, false, None, None, t0);
+    let fr = AckFrequency { sequence: VarInt(seq), ack_eliciting_threshold: VarInt(threshold), request_max_ack_delay: VarInt(delay_us), reordering_threshold: VarInt(reordering) };
+    let r = st.ack_frequency_received(&fr, &mut pa);
+    let (t1, r1) = crate::connection::spaces::verif::pending_acks_thresholds(&pa);
+    let f;
+    if has_last && seq <= last {
+        assert!(matches!(r, Ok(false)));
+        assert!(st.last_ack_frequency_frame == Some(last));
+        assert!(st.max_ack_delay == Duration::from_micros(old_delay_us));
+        assert!(t1 == 1 && r1 == 1);
+        f = 2;
+    } else if delay_us < 1000 {
+        assert!(matches!(&r, Err(e) if e.code == TransportErrorCode::PROTOCOL_VIOLATION));
+        assert!(st.max_ack_delay == Duration::from_micros(old_delay_us));
+        assert!(t1 == 1 && r1 == 1);
+        f = 4;
+    } else {
+        assert!(matches!(r, Ok(true)));
+        assert!(st.last_ack_frequency_frame == Some(seq));
+        assert!(st.max_ack_delay == Duration::from_micros(delay_us));
+        assert!(t1 == threshold && r1 == reordering);
+        f = 1;
+    }
+    core::mem::forget(pa);
+    core::mem::forget(r);
+    f
+}
+
+/// Sender side bookkeeping: the PTO uses the larger of the peer's current and any in-flight
+/// requested max_ack_delay; an ACK of the carrying packet (and only that) adopts the request;
+/// sequence numbers increase by one.
+pub fn sender_bookkeeping(peer_us: u16, has_in_flight: bool, in_pn: u64, in_us: u16, acked_pn: u64, next_seq: u64, sent_pn: u64, sent_us: u16) -> u32 {
+    if next_seq >= V62 - 1 {
+        return 0;
+    }
+    let (peer_us, in_us, sent_us) = (peer_us as u64, in_us as u64, sent_us as u64);
+    let mut st = mk_state(peer_us, if has_in_flight { Some((in_pn, in_us)) } else { None }, next_seq, None, 25_000);
+    let pto = st.max_ack_delay_for_pto();
+    assert!(pto == Duration::from_micros(if has_in_flight { peer_us.max(in_us) } else { peer_us }));
+    st.on_acked(acked_pn);
+    let mut f = 1;
+    if has_in_flight && acked_pn == in_pn {
+        assert!(st.in_flight_ack_frequency_frame.is_none());
+        assert!(st.peer_max_ack_delay == Duration::from_micros(in_us));
+        f |= 2;
+    } else {
+        assert!(st.peer_max_ack_delay == Duration::from_micros(peer_us));
+        assert!(st.in_flight_ack_frequency_frame.is_some() == has_in_flight);
+    }
+    let s = st.next_sequence_number();
+    assert!(s.into_inner() == next_seq);
+    assert!(st.next_sequence_number().into_inner() == next_seq + 1);
+    st.ack_frequency_sent(sent_pn, Duration::from_micros(sent_us));
+    assert!(st.in_flight_ack_frequency_frame == Some((sent_pn, Duration::from_micros(sent_us))));
+    assert!(st.max_ack_delay_for_pto() >= Duration::from_micros(sent_us));
+    f
+}
